@@ -43,14 +43,13 @@ func cmdFuncs(args []string) {
 		fmt.Fprintln(os.Stderr, err)
 		os.Exit(2)
 	}
-	cs := NewContracts()
-	for f, pkg := range l.contractFiles() {
-		if err := cs.LoadContractFile(f, pkg, false); err != nil {
-			fmt.Fprintln(os.Stderr, err)
-			os.Exit(2)
-		}
+	cs, err := loadContracts(l, "/verif")
+	if err != nil {
+		fmt.Fprintln(os.Stderr, err)
+		os.Exit(2)
 	}
 	x := NewExec(l, cs)
+	x.loadDirectives()
 	var keys []string
 	for k, fc := range cs.Funcs {
 		if fc.Assumed {
@@ -110,13 +109,15 @@ func cmdFuncs(args []string) {
 		}
 		if strings.Contains(n, "#canary") || strings.Contains(n, "#cover") {
 			anySat := false
+			var sts []string
 			for _, i := range byName[n] {
 				if results[i].Status == "sat" {
 					anySat = true
 				}
+				sts = append(sts, fmt.Sprint(results[i].Tried))
 			}
 			if !anySat {
-				fmt.Printf("VACUOUS %s\n", n)
+				fmt.Printf("VACUOUS? %s %v\n", n, sts)
 			} else if *verbose {
 				fmt.Printf("ok(reachable) %s\n", n)
 			}
@@ -141,7 +142,7 @@ func dischargeAll(x *Exec, obls []*Obligation, timeout time.Duration, all bool) 
 			results[i] = SolveResult{Status: "unsat", Solver: "syntactic"}
 			continue
 		}
-		q := &Query{Assume: ob.Assume, Goal: ob.Goal}
+		q := buildQuery(ob)
 		fuel := x.specFuel
 		if fuel == 0 {
 			fuel = 2
@@ -160,10 +161,26 @@ func dischargeAll(x *Exec, obls []*Obligation, timeout time.Duration, all bool) 
 			defer wg.Done()
 			sem <- struct{}{}
 			defer func() { <-sem }()
-			results[i] = solveQuery(queries[i], timeout, all)
+			to := timeout
+			if (obls[i].Canary || obls[i].Cover) && to > 3*time.Second {
+				to = 3 * time.Second
+			}
+			results[i] = solveQuery(queries[i], to, all && !obls[i].Canary && !obls[i].Cover)
 		}(i)
 	}
 	wg.Wait()
 	return results
 }
 
+
+// buildQuery applies the state-hint instantiation of quantifiers.
+func buildQuery(ob *Obligation) *Query {
+	if len(ob.Hints) == 0 || ob.Canary || ob.Cover {
+		return &Query{Assume: ob.Assume, Goal: ob.Goal}
+	}
+	q := &Query{Goal: instQuant(ob.Goal, false, ob.Hints, 0)}
+	for _, a := range ob.Assume {
+		q.Assume = append(q.Assume, instQuant(a, true, ob.Hints, 0))
+	}
+	return q
+}
